@@ -6,6 +6,8 @@ import pandas as pd
 from .. import gen, pf, impl, scen
 from ..impl import Quiet
 from ..comp import split as SP
+from ..comp import splitrep as SR
+from ..comp import splitbuild as SB
 
 ID = 'C14'
 THEOREMS = [
@@ -16,7 +18,8 @@ THEOREMS = [
     ('EAO.Properties.C01', 'EAO.C01.nodal_balance_split', 'the concatenated solution satisfies nodal balance at the original steps'),
     ('EAO.Properties.C04', 'EAO.C04.value_accounting_split', 'value accounting interval by interval'),
 ] + SP.THEOREMS_C14_SPLIT + SP.THEOREMS_C14_LE
-PARTIAL = ['the relation to the UNSPLIT problem is decided by per-instance certificates, not by a theorem about the builders: split = unsplit (value and dispatch) by theorem split_equals_unsplit(_bool) under the decidable witness splitWitness, split <= unsplit (and: the concatenated split solution satisfies every row and bound of the unsplit problem) by split_solution_le_unsplit(C)(_bool) under splitLeWitness(C) with exact row-implication multipliers; the driver evaluates the witnesses EXACTLY on the real unsplit problem and the real interval problems of every case of the uncoupled resp. storage streams (a false witness there is reported as a broken tie). Outside the certificates, on the numerical oracle only: cases in which the unsplit problem needs the two-variable form of a contract and an interval gets by with one variable (different variable sets, no matching), and storages with holding costs whose float cost vectors differ from an exact multiple of the end-level rows by rounding noise. The shortcut io.optimize and the DataFrame form of the price data are covered by the numerical / exact-comparison oracles on the real code only (no model of io.optimize or of Timegrid.prices_to_grid is involved in C14); of the shortcut result the value, the steps and the columns of the dispatch table are compared with the direct split path, not the dispatch numbers (degenerate optima)']
+THEOREMS = THEOREMS + SB.THEOREMS_C14_BUILDERS
+PARTIAL = ['for portfolios of the five contract / transport builder classes (SimpleContract, Contract, MultiCommodity, Transport, ExtendedTransport, freq = None) the relation to the unsplit problem IS a theorem about the builders (EAO.C14B.split_equals_unsplit_builders under the decidable hypotheses splitHyps: same one-/two-variable form in every interval, no array parameter of the grid\'s length, every take period inside one interval, positive step lengths; each hypothesis has a machine-checked example showing it is needed); for all other assets (storages, plants, order books, wrappers) the relation to the UNSPLIT problem is decided by per-instance certificates, not by a theorem about the builders: split = unsplit (value and dispatch) by theorem split_equals_unsplit(_bool) under the decidable witness splitWitness, split <= unsplit (and: the concatenated split solution satisfies every row and bound of the unsplit problem) by split_solution_le_unsplit(C)(_bool) under splitLeWitness(C) with exact row-implication multipliers; the driver evaluates the witnesses EXACTLY on the real unsplit problem and the real interval problems of every case of the uncoupled resp. storage streams (a false witness there is reported as a broken tie). Outside the certificates, on the numerical oracle only: cases in which the unsplit problem needs the two-variable form of a contract and an interval gets by with one variable (different variable sets, no matching), and storages with holding costs whose float cost vectors differ from an exact multiple of the end-level rows by rounding noise. The shortcut io.optimize and the DataFrame form of the price data are covered by the numerical / exact-comparison oracles on the real code only (no model of io.optimize or of Timegrid.prices_to_grid is involved in C14); of the shortcut result the value, the steps and the columns of the dispatch table are compared with the direct split path, not the dispatch numbers (degenerate optima)']
 COMPONENTS = ['per-interval assemble on captured asset problems vs the interval problems of setup_split_optim_problem', 'index shift / original step numbers of the joint mapping', 'split-witness: exact evaluation of splitWitness (unsplit real problem renamed along the matching of the variables = block sum of the real interval problems)', 'split-le-witness: exact evaluation of splitLeWitness(C) (every unsplit row implied by interval rows with explicit multipliers found numerically)']
 RULE = ('random portfolios x interval sizes (aligned and not aligned with the horizon, incl. partial last interval); three streams: uncoupled assets only (value and dispatch equal to unsplit), storages with start=end level as only coupling (split <= unsplit, concatenated solution feasible for unsplit), anything (sum of interval optima, balance, limits, original steps); '
         'in 6 of 10 cases of the uncoupled (outside its fixed-scale variant) and of the anything stream plants / CHPs WITH a fuel node are added whose fuel efficiency, fuel consumption when on / per start, conversion factor, heat share, start and running costs '
@@ -123,9 +126,19 @@ def scenarios(seed, tier):
     # run_from_json, set_param): comp/entry.py
     from ..comp import entry as EN
     yield from EN.stream(seed, n // 8, ('io_split',), tmax=10 if tier == 'quick' else 16)
+    # intervals that look alike in part of their data (recurring / flat price profiles, the same capacities) and differ in the rest
+    # (take quantities per interval, efficiencies, capacities): comp/splitrep.py
+    yield from SR.stream(seed, n // 4)
+    # the split set-up of portfolios of the five contract / transport builders against its model, the decidable hypotheses of
+    # EAO.C14B.split_witness_builders against the witness evaluated on the REAL problems (comp/splitbuild.py)
+    rnd_sb = random.Random(seed * 104729 + 1414)
+    for i in range(100 if tier == 'quick' else 700):
+        yield 'sbd%d' % i, {'_stream': 'splitbuild', 'case': SB.gen_case(random.Random(rnd_sb.getrandbits(48)))}
 
 
 def interval_of(scn, tg):
+    if scn.get('interval'):
+        return scn['interval']          # the stream names its interval size itself
     T = tg.T
     step = scn['grid']['step_s']
     k = max(1, T // scn['parts'])
@@ -144,12 +157,32 @@ def key_rows(m):
 
 
 def run_case(scn, drv):
+    if scn.get('_stream') == 'splitbuild':
+        case = scn['case']
+        r = SB.run_impl(case)
+        req = SB.request(case, r)
+        mres = drv.ask(req)
+        dis = SB.compare(case, r, mres, req) + SB.compare_grids(r, drv)
+        viol = SB.oracle(case, r, mres, drv)
+        m = mres.get('ok', {})
+        return {'evaluated': 1, 'nontrivial': bool(m.get('hyps')) and 'intervals' in r['split'],
+                'features': ['stream:splitbuild', 'sb:' + case['stream'], 'hyps:%s' % m.get('hyps'), 'witness:%s' % m.get('witness')],
+                'disagreements': [{'component': 'split builders', 'detail': d} for d in dis], 'violations': viol}
     if scn.get('_stream') == 'entry':
         from ..comp import entry as EN
         return EN.run_stream_case(scn, ('entry_point', 'nodal_balance', 'value_accounting'))
     r = {'evaluated': 1, 'nontrivial': False, 'features': [], 'disagreements': [], 'violations': []}
     feats = r['features']
     feats.append('stream:' + scn['stream'])
+    # what the stream says about the coupling of the intervals decides which parts of the statement apply; the streams of the
+    # earlier rounds are named after it, the stream 'repeat' carries it in 'sem'
+    sem = scn.get('sem') or scn['stream']
+    if scn['stream'] == 'repeat':
+        feats.append('repeat-sem:' + sem)
+        feats.append('repeat-family:' + str(scn.get('family')))
+        feats.append('repeat-mode:' + str(scn['repeat']['mode']))
+        feats.append('repeat-takes:' + str(scn['repeat']['takes']))
+        feats += ['repeat-note:' + x for x in scn['repeat'].get('notes', [])]
     for a in scn['assets']:
         feats.append('asset:' + a['type'])
 
@@ -239,14 +272,14 @@ def run_case(scn, drv):
             viol('nodal record of the split problem names %s but dispatch rows sit at %s' % (sorted(got - want)[:3], sorted(want - got)[:3]), what='nodal_steps')
     if len(m) and not set(int(s) for s in m['time_step'].values) <= set(int(i) for i in tg.I):
         viol('joint mapping has steps outside the original grid', what='steps')
-    if scn['stream'] != 'any' or True:
+    if sem != 'any' or True:
         # same (asset, node, type, name, step, factor) rows as the unsplit problem whenever no asset builds rows differently per interval
         # (asset, node, type, step): the number of variables per step may legitimately differ (a contract needs one or two
         # variables depending on the data of the grid it is built for)
         # dispatch rows only: internal / size variables are booked per interval (a scale variable per interval)
         k0 = sorted(set((a, n, t, s_) for a, n, t, v, s_, f in key_rows(rec['op'].mapping) if t == 'd'))
         k1 = sorted(set((a, n, t, s_) for a, n, t, v, s_, f in key_rows(m) if t == 'd'))
-        if (scn['stream'] in ('uncoupled', 'storage', 'takes') or scn.get('late_start')) and k0 != k1:
+        if (sem in ('uncoupled', 'storage', 'takes') or scn.get('late_start')) and k0 != k1:
             d0 = [x for x in k0 if x not in set(k1)][:2]
             d1 = [x for x in k1 if x not in set(k0)][:2]
             viol('mapping rows of the split problem differ from the unsplit ones: only unsplit %s, only split %s' % (d0, d1), what='steps')
@@ -266,12 +299,12 @@ def run_case(scn, drv):
             viol('asset %s, variable %s at step %d flows into node %s with factor %s in the split problem, %s in the unsplit problem (%d such rows)'
                  % (k[0], k[2], k[3], k[1], x1, x0, len(bad)), what='factors')
     # --- certificate: the unsplit problem IS the block sum of the interval problems (hypothesis of EAO.C14.split_equals_unsplit)
-    if scn['stream'] in ('uncoupled', 'blocks', 'storage', 'storage_ne') and len(rec['op'].c) <= 400:
+    if sem in ('uncoupled', 'blocks', 'storage', 'storage_ne') and len(rec['op'].c) <= 400:
         try:
             w = SP.witness_check(rec, rs, drv)
             feats.append('witness:%s' % {True: 'true', False: 'false', None: 'none'}[w['witness']])
             r['evaluated'] += 1
-            if w['witness'] is False and scn['stream'] == 'uncoupled' and not scn.get('fixed_scaled'):
+            if w['witness'] is False and sem == 'uncoupled' and not scn.get('fixed_scaled'):
                 # nothing couples the intervals by construction of the stream, yet the real unsplit problem is not the block sum
                 r['disagreements'].append({'component': 'split-witness', 'detail': 'uncoupled portfolio but splitWitness is false: ' + w['reason'][:300]})
             if w['witness'] is True:
@@ -280,16 +313,16 @@ def run_case(scn, drv):
             r['disagreements'].append({'component': 'split-witness', 'detail': 'witness could not be evaluated: %s: %s' % (type(e).__name__, str(e)[:200])})
     # --- certificate: every row of the unsplit problem is implied by the rows of the interval problems (hypothesis of
     #     EAO.C14.split_solution_le_unsplit(C)): split <= unsplit, concatenated solution feasible on the original grid
-    if scn['stream'] in ('storage', 'storage_ne') and len(rec['op'].c) <= 300:
+    if sem in ('storage', 'storage_ne') and len(rec['op'].c) <= 300:
         try:
             w = SP.le_witness_check(rec, rs, drv)
             feats.append('le-witness:%s' % {True: 'true', False: 'false', None: 'none'}[w['witness']])
             if w.get('objective'):
                 feats.append('le-objective:' + str(w['objective']))
             r['evaluated'] += 1
-            if w['witness'] is False and scn['stream'] == 'storage' and 'objective' not in str(w.get('reason', ''))[:40] and w.get('objective') != '-':
+            if w['witness'] is False and sem == 'storage' and 'objective' not in str(w.get('reason', ''))[:40] and w.get('objective') != '-':
                 r['disagreements'].append({'component': 'split-le-witness', 'detail': 'storages with start level = end level are the only coupling but splitLeWitness is false: ' + str(w['reason'])[:300]})
-            elif w['witness'] is False and scn['stream'] == 'storage':
+            elif w['witness'] is False and sem == 'storage':
                 feats.append('le-witness-false:objective-not-certified')
         except Exception as e:
             r['disagreements'].append({'component': 'split-le-witness', 'detail': 'witness could not be evaluated: %s: %s' % (type(e).__name__, str(e)[:200])})
@@ -302,12 +335,38 @@ def run_case(scn, drv):
     r['evaluated'] += 1
     if scn.get('shortcut'):
         shortcut_oracle(scn, interval, rs, tg, r, viol)
+    # reference of the stream 'repeat': every interval problem set up and solved on its own (fresh objects, nothing of the split
+    # set-up or of SplitOptimProblem involved)
+    own_iv = None
+    if scn['stream'] == 'repeat':
+        feats += ['repeat-' + f for f in SR.alike_features(ops)]
+        try:
+            own_iv = SR.own_interval_optima(scn, interval, lambda o: impl.solve(o))
+            r['evaluated'] += 1
+        except Exception as e:
+            feats.append('own-intervals-error:' + impl.err_class(e))
     if isinstance(rs['res'], str):
         feats.append('split-unsolved')
-        if not isinstance(rec['res'], str) and scn['stream'] == 'uncoupled':
+        if not isinstance(rec['res'], str) and sem == 'uncoupled':
             viol('split optimisation not successful although the unsplit problem is solvable and nothing couples the intervals', what='status')
+        if own_iv and all(v is not None for _, _, v in own_iv):
+            viol('split optimisation not successful (%s) although every one of the %d interval problems, set up and solved on its own, has an optimum (sum %.8g)'
+                 % (str(rs['res'])[:40], len(own_iv), sum(v for _, _, v in own_iv)), what='status_intervals')
         return r
     Vs = float(rs['res'].value)
+    if own_iv is not None:
+        bad_iv = [(t0, n_) for t0, n_, v in own_iv if v is None]
+        if len(own_iv) != len(ops):
+            viol('the split problem has %d interval problems, %d intervals of the horizon hold an active asset' % (len(ops), len(own_iv)), what='interval_count')
+        elif bad_iv:
+            viol('split optimisation reports the value %.8g, but the interval of %d steps from step %d on, set up and solved on its own, has no solution'
+                 % (Vs, bad_iv[0][1], bad_iv[0][0]), what='status_intervals')
+        else:
+            tot_own = sum(v for _, _, v in own_iv)
+            feats.append('own-intervals:compared')
+            if abs(tot_own - Vs) > 2e-6 * max(1.0, abs(Vs), abs(tot_own)):
+                viol('split value %.8g is not the sum %.8g of the optima of the interval problems set up and solved each on its own (%s)'
+                     % (Vs, tot_own, ', '.join('%.6g' % v for _, _, v in own_iv)[:200]), what='sum_of_own_optima')
     # value = sum of the interval optima
     tot = 0.0
     for o in ops:
@@ -346,15 +405,15 @@ def run_case(scn, drv):
     if not isinstance(rec['res'], str):
         Vu = float(rec['res'].value)
         tolu = 2e-6 * max(1.0, abs(Vu), abs(Vs))
-        if scn['stream'] == 'uncoupled' and abs(Vs - Vu) > tolu:
+        if sem == 'uncoupled' and abs(Vs - Vu) > tolu:
             viol('nothing couples the intervals, but split value %.8g differs from unsplit %.8g' % (Vs, Vu), what='equals_unsplit',
                  fixed_scaled=bool(scn.get('fixed_scaled')), sign='split_higher' if Vs > Vu else 'split_lower')
-        if scn['stream'] == 'blocks' and abs(Vs - Vu) > tolu:
+        if sem == 'blocks' and abs(Vs - Vu) > tolu:
             viol('storage blocks coincide with the intervals (start level = end level), nothing else couples them, but split value %.8g differs from unsplit %.8g' % (Vs, Vu),
                  what='equals_unsplit_blocks', sign='split_lower' if Vs < Vu else 'split_higher')
-        if scn['stream'] == 'storage' and Vs > Vu + tolu:
+        if sem == 'storage' and Vs > Vu + tolu:
             viol('storages with start level = end level are the only coupling, but split value %.8g exceeds unsplit %.8g' % (Vs, Vu), what='le_unsplit')
-        if scn['stream'] in ('uncoupled', 'storage', 'takes', 'storage_ne'):
+        if sem in ('uncoupled', 'storage', 'takes', 'storage_ne'):
             # transport the concatenated solution into the unsplit problem: match variables by their mapping rows
             x = transport(rs, rec)
             if x is None:
@@ -363,10 +422,23 @@ def run_case(scn, drv):
                 worst, what = pf.feasibility_violation(rec['op'], x)
                 if worst > 1e-5:
                     viol('the concatenated split solution violates %s of the unsplit problem by %.3g' % (what, worst), what='limits')
-                elif scn['stream'] == 'uncoupled':
+                elif sem == 'uncoupled':
                     val = -float(np.dot(rec['op'].c, x))
                     if abs(val - Vu) > tolu:
                         viol('the concatenated split solution has value %.8g in the unsplit problem, optimum %.8g' % (val, Vu), what='equals_unsplit')
+    if sem == 'any':
+        # whatever couples the intervals: the concatenated solution satisfies the bounds of the unsplit problem and every row of it
+        # that touches variables of ONE interval only (per-asset limits on the original grid that do not reach across a cut)
+        x = transport(rs, rec)
+        w = SR.within_interval_violation(rec, rs, x) if x is not None else None
+        if w is None:
+            feats.append('within-skipped')
+        else:
+            r['evaluated'] += 1
+            feats.append('within:rows-checked' if w[2] else 'within:bounds-only')
+            if w[0] > 1e-5:
+                viol('the concatenated split solution violates %s of the unsplit problem by %.3g (rows over variables of two intervals left out: %d)'
+                     % (w[1], w[0], w[3]), what='limits_within')
     r['nontrivial'] = len(ops) >= 2 and abs(Vs) > 1e-9
     r['observed'] = {'split_value': Vs, 'unsplit_value': None if isinstance(rec['res'], str) else float(rec['res'].value), 'intervals': len(ops)}
     return r
